@@ -148,8 +148,8 @@ pub fn state_direct(p: &Pos) -> State {
         rights,
         p.ep.map(o_sq),
         Clock {
-            halfmove_clock: p.half as usize,
-            fullmove_number: p.full as usize,
+            halfmove_clock: p.half as _, // whatever integer type the field has
+            fullmove_number: p.full as _,
         },
     )
 }
